@@ -50,6 +50,12 @@ CHECKS.update({
  "C08": ("exploration","runtime oracle: raw dump after the real ApplyDiff vs raw dump of a fresh compile, over generated file chains; failure-atomicity probes with dump comparison",
          "Generates chains of data files (removals, duplicated lines, additions under existing keys, subnet churn), preprocesses each with the dnsrocks-preproc codec settings, renders the multiset line difference as -/+ lines in random order, applies it with the real RDB.ApplyDiff to the RocksDB compiled from the previous file (v1 and v2 keys) and compares the raw dump with a fresh compile of the next file; broken variants of every diff must fail and leave the dump unchanged.",
          "Trusts the harness's multiset line diff and the dump helper (repository's own cgo iterator).","4/C08"),
+ "C05": ("exploration","offline checker over recorded client-boundary histories (generation stamps) produced by scheduled interleavings at verif yield points, sequential reload chains and free-running stress under the race detector",
+         "Every record carries its generation; a scheduler parks one query at each of its 7 yield points while a reload of each kind (full/partial ok, missing path, unreadable, missing validation key, 1 ns timeout) runs to each of its 4 points or to completion, on CDB/RocksDB v1/v2 with cache on/off; chains of mixed reloads and an 8-client stress run feed the same checker: single generation per response, visibility after a returned reload, per-client monotonicity, failed targets never observed.",
+         "Covers the produced interleavings only (listed as hook-point sequences). Two RocksDB partial-reload findings are suppressed by predicate on the history. Crash containment: scheduled runs in child processes.","4/C05"),
+ "C12": ("exploration","differential runtime monitor (cache on vs off on the same query history) plus scheduled stale-insert interleavings at verif yield points decided by a generation-stamp rule; stress child under the race detector",
+         "(a) two real handlers over the same database, cache on/off, receive the same generated query history with heavy key reuse across clients, types, EDNS variants and letter case; every response pair must be canonically equal. (b) with generation-stamped data and the cache on, a query is parked at each point up to the cache insertion while a full/partial reload completes (or is parked after the purge) and then resumed; queries started after the reload returned must not carry an older stamp, for positive, NXDOMAIN, referral and wildcard entries.",
+         "WRSTimeout 0. Equality is up to owner-name case and random address choice (max-answer >= candidates).","4/C12"),
 })
 BUILT = set(CHECKS)
 ALL = [json.loads(l)["id"] for l in open("properties.jsonl")]
